@@ -130,6 +130,12 @@ NoCompletionWithoutTrigger ==
   [][(~trig /\ last'.op \in {"incr", "setcur", "refill"}) => (~Completed' /\ phase' = phase)]_vars
 AbortNoEffectOnCompleted ==
   [][(Completed /\ last'.op = "abort") => (Completed' /\ ~Aborted')]_vars
+(* adopting the counter as the total (SetTotal with a negative total) never changes the counter, and a positive increment
+   never lowers it (on a bar that has not been aborted and whose counter is not above its total): under these calls alone,
+   from a bar of total 0, Current() is monotone (the stress driver checks exactly this) *)
+AdoptKeepsCounter ==
+  [][~aborted => /\ ((last'.op = "settotal" /\ last'.a < 0) => current' = current)
+                 /\ ((last'.op = "incr" /\ last'.a > 0 /\ (~trig \/ current <= total)) => current' >= current)]_vars
 SetTotalIgnoredWhenTriggered ==
   [][(trig /\ last'.op = "settotal") => total' = total]_vars
 
